@@ -160,6 +160,72 @@ def _cleanup(port, *socks):
             pass
 
 
+def check_close_while_receiving(case):
+    """One thread is blocked in a receiving loop with nothing pending; another thread closes the port. close() must
+    return, the peer must see the disconnect and the loop must end (real threads, real time: generous bounds, a correct
+    implementation needs a few milliseconds)."""
+    import threading
+    dicts = case['msgs']
+    a, b = socket.socketpair()
+    port = None
+    out = []
+    got = []
+    box = {}
+    try:
+        port = SocketPort('peer', 1, conn=a)
+        how = case.get('how', 'iterate')
+
+        def reader():
+            try:
+                if how == 'iterate':
+                    for m in port:
+                        got.append(m)
+                else:
+                    while True:
+                        got.append(port.receive())
+            except (OSError, ValueError) as exc:
+                box['ended'] = repr(exc)
+            except Exception as exc:  # noqa: BLE001
+                box['exc'] = exc
+        for d in dicts:
+            b.sendall(bytes(R.ref_encode(d)))
+        rt = threading.Thread(target=reader, daemon=True)
+        rt.start()
+        until = time.time() + 5.0
+        while len(got) < len(dicts) and time.time() < until:
+            time.sleep(0.002)
+        time.sleep(0.02)            # the reader is waiting for more now
+        ct = threading.Thread(target=port.close, daemon=True)
+        ct.start()
+        ct.join(5.0)
+        if ct.is_alive():
+            out.append(fail('close-blocks', f'close() called while another thread waits in {how} has not returned after 5 s'))
+        else:
+            if not port.closed:
+                out.append(fail('not-closed', 'closed flag not set by close()'))
+            r, _, _ = select.select([b], [], [], 2.0)
+            if not r or b.recv(10) != b'':
+                out.append(fail('close-not-seen', 'peer sees no disconnect within 2 s after close() from a second thread'))
+            rt.join(5.0)
+            if rt.is_alive():
+                out.append(fail('blocks-forever', f'{how} is still waiting 5 s after the port was closed by another thread',
+                                drain=how))
+        if 'exc' in box:
+            out.append(fail('drain-raises', f'{how} ended with {box["exc"]!r}', exc=exc_sig(box['exc']), drain=how))
+        want = [mk(d) for d in dicts]
+        if not out and (len(got) != len(want) or any(not (g == w) for g, w in zip(got, want))):
+            out.append(fail('delivered', f'got {got!r}, expected {want!r}'[:600], drain=how))
+    except Exception as exc:  # noqa: BLE001
+        out.append(fail('raises', f'{exc!r}', exc=exc_sig(exc)))
+    finally:
+        try:
+            b.close()           # whatever happened: let a stuck reader see end-of-stream
+        except OSError:
+            pass
+        _cleanup(None, a)
+    return out
+
+
 def check_send_close(case):
     dicts = case['msgs']
     a, b = socket.socketpair()
@@ -491,6 +557,8 @@ def run_case(case):
     if k == 'send':
         res, stuck = watchdog(lambda: check_send_close(case), 'send/close', timeout=5.0)
         return stuck or res
+    if k == 'close-while-receiving':
+        return check_close_while_receiving(case)
     if k == 'server':
         return check_server(case)[0]
     if k == 'brokenpipe':
@@ -622,6 +690,11 @@ def main(ctx):
                    'timeout': 120.0, 'bigbuf': True}, classes=('volume',), sample=False)
     for case in brokenpipe_cases():
         ctx.check(case, classes=('broken-pipe',), sample=False)
+    for how in ('iterate', 'receive'):
+        for n in (0, 2):
+            ctx.check({'kind': 'close-while-receiving', 'how': how,
+                       'msgs': [{'type': 'note_on', 'channel': 0, 'note': i, 'velocity': 9, 'time': 0} for i in range(n)]},
+                      classes=('close-from-another-thread',), sample=False)
     try:
         probe = socket.socket(socket.AF_INET, socket.SOCK_STREAM)
         probe.bind(('127.0.0.1', 0))
